@@ -58,9 +58,10 @@ def mk(n, tables=True, tag='ab', q0=0.1, xf=False, shift=0.0, cell=20.0, dup=Fal
     for k in KINDS:
         t = tup[k] if k in kinds else []
         kw[ATTR[k]] = t
-        kw[k + '_types'] = [(i % 2 if two_types else 0) for i in range(len(t))]
+        mult = dict(bond=1, angle=2, dihedral=3, improper=1)[k]          # different id ranges per kind, so that offsets of different kinds differ
+        kw[k + '_types'] = [((i % 2) * mult if two_types else 0) for i in range(len(t))]
         if tables and t:
-            kw[k + '_type_coeffs'] = ['%s_%s_%d  1.5 # c%d' % (k[0], tag, i, i) for i in range(2 if two_types else 1)]
+            kw[k + '_type_coeffs'] = ['%s_%s_%d  1.5 # c%d' % (k[0], tag, i, i) for i in range(mult + 1 if two_types else 1)]
         if xf and t:
             if k == 'improper':
                 continue
